@@ -5,10 +5,13 @@ pub trait Suite {
 }
 
 pub mod codec;
+pub mod dispatch;
+pub mod smutil;
 
 pub fn make(name: &str) -> Option<Box<dyn Suite>> {
     match name {
         "codec" => Some(Box::new(codec::Codec::new())),
+        "dispatch" => Some(Box::new(dispatch::Dispatch::new())),
         _ => None,
     }
 }
